@@ -160,8 +160,18 @@ class ExprMixin:
         cl = getattr(fr, "closure", None)
         if cl and name in cl:
             return cl[name]
-        # closures
+        # closures: a free variable of a nested def is looked up in the (still active) lexically enclosing frames
         f = fr.func.parent
+        while f is not None:
+            for outer in reversed(self.frames[:-1]):
+                if outer.func is f:
+                    if name in outer.env:
+                        return outer.env[name]
+                    ocl = getattr(outer, "closure", None)
+                    if ocl and name in ocl:
+                        return ocl[name]
+                    break
+            f = f.parent
         mod = fr.func.module
         r = self.model.resolve(mod, name)
         if r is not None:
